@@ -138,6 +138,7 @@ def run(w: World, rep: Report):
     rep.check('C04.R1b', 'functions.bytes_are_same|length-and-xor', ok, line=bas.node.lineno, file=REL,
               why='' if ok else 'bytes_are_same no longer requires equal length and an all-zero xor')
     _no_memo_in_tree_classes(w, rep)
+    _tree_construction(w, rep)
     # a proof that validated once must validate again: the VM side keeps no state between runs
     from .report import depend
     depend(rep, w, 'rules_c19', ('C19.R2',), 'C04.TD19',
@@ -293,3 +294,49 @@ def _no_memo_in_tree_classes(w: World, rep: Report, rule: str = 'C04.R4',
                   'generated afterwards (proofs, commitments, serialisations) describes the old state')
     if n == 0:
         raise AnalysisError('no tree class (commitment / unlocking_script / root) found in tools.py')
+
+
+def _tree_construction(w: World, rep: Report):
+    """(a) ScriptNode.__init__ makes itself the parent of both children on every path - a branch taken over from an
+    earlier tree must generate proofs up to the *new* root; (b) the tree builders compile a leaf from source only when
+    it is given as source (a str): a leaf given as a Script keeps its own byte code - recompiling its `src` commits
+    to other bytes whenever the source is not a fixed point of compile (comptime blocks, hand-made Scripts)."""
+    rep.rule('C04.R5', 'ScriptNode.__init__ re-parents both children unconditionally; the tree builders compile only leaves '
+             'given as str', floor=3)
+    init = w.repo.func('tools', 'ScriptNode.__init__')
+    me = init.params[0]
+    kids = init.params[1:3]
+    for kid in kids:
+        top = [st for st in init.node.body if isinstance(st, ast.Assign) and any(
+            isinstance(t, ast.Attribute) and t.attr == 'parent' and isinstance(t.value, ast.Name) and t.value.id == kid
+            for t in st.targets) and isinstance(st.value, ast.Name) and st.value.id == me]
+        rep.check('C04.R5', f'tools.ScriptNode.__init__|{kid}.parent=self|unconditional', bool(top), line=init.node.lineno,
+                  file='tapescript/tools.py',
+                  why='' if top else f'`{kid}.parent = {me}` is missing or conditional: a child that already belongs to a tree keeps '
+                  f'its old parent, its unlocking script then proves membership in the old tree and fails under the new root')
+    n = 0
+    for bname in ('make_script_tree_prioritized', 'make_script_tree_balanced', 'make_merklized_script_prioritized',
+                  'make_merklized_script_balanced'):
+        try:
+            b = w.repo.func('tools', bname)
+        except Exception:
+            continue
+        cfg = w.cfg(b)
+        for nd, c in cfg.nodes_with_call(lambda c: (dotted(c.func) or '').endswith('from_src')):
+            if not c.args or isinstance(c.args[0], (ast.Constant, ast.JoinedStr)):
+                continue            # a literal source (filler leaves), not a leaf the caller passed
+            n += 1
+            guarded = False
+            for t, pol in cfg.dominating_conditions(nd):
+                txt = ast.unparse(t.ast).replace(' ', '')
+                if pol is True and ('isstr' in txt or 'isinstance(' in txt and ',str)' in txt):
+                    guarded = True
+            in_comp = any(isinstance(a, (ast.ListComp, ast.GeneratorExp)) for a in cfg.ancestors(c)) if hasattr(cfg, 'ancestors') else False
+            if in_comp:
+                # inside a comprehension: its own `if type(x) is str` filter / conditional expression
+                guarded = any(isinstance(a, ast.IfExp) and 'str' in ast.unparse(a.test) for a in cfg.ancestors(c))
+            rep.check('C04.R5', f'tools.{bname}|from_src@{n}|only-for-str-leaves', guarded, line=nd.line, file='tapescript/tools.py',
+                      why='' if guarded else f'{bname} compiles `{ast.unparse(c)[:40]}` whether or not the leaf was given as source: '
+                      f'a leaf passed as a Script loses its byte code and the tree commits to the recompiled source instead')
+    if n == 0:
+        raise AnalysisError('tree builders: no from_src conversion found')
